@@ -22,13 +22,15 @@ func init() {
 				"lock, deferred unlock included) and each write while it is held exclusively; the per-type field cache is filled only before it is published into the guarded map, inside the write-locked " +
 				"region. (C11.globals) every package-level variable of the module is a sync type, is never stored to or mutated outside its declaration/init, or is a guarded object. (C11.frozen) " +
 				"Set fields other than globals are written only by NewSet and the option functions, Template fields only by functions reachable from Set.parse (before the template is returned), " +
-				"and the default cache's map is a sync.Map. (C11.perexec) no *Runtime, *scope, VarMap or pooled ranger is stored into a package-level variable or into a Set/Template field.",
+				"and the default cache's map is a sync.Map. (C11.perexec) no *Runtime, *scope, VarMap or pooled ranger is stored into a package-level variable or into a Set/Template field. (C11.guard, continued) every Lock/RLock is released on every way out of its function: by a deferred unlock, or by an unlock on every path with nothing in between that can panic.",
 			NotDecided:  "data-race freedom as such (memory model, all schedules); atomicity of check-then-load in getTemplate (two goroutines may both parse the same template); user-supplied Loader/Cache/functions; Multi.AddLoaders (unsynchronised by documentation).",
 			Assumptions: []string{"all accesses to one guarded object go through the mutex declared next to it (same instance)", "sync.Pool, sync.Map and sync.RWMutex behave as documented"},
 			Trusted:     commonTrusted,
 		},
 		Mutants: []Mutant{
-			{Name: "dump reads globals without the lock (original defect)", File: "dump.go", Old: "\ta.runtime.set.gmx.RLock()\n\tvars = a.runtime.set.globals", New: "\tvars = a.runtime.set.globals", More: []Edit{{File: "dump.go", Old: "\ta.runtime.set.gmx.RUnlock()\n", New: ""}}, Rule: "C11.guard"},
+			{Name: "dump reads globals without the lock (original defect)", File: "dump.go", Old: "\ta.runtime.set.gmx.RLock()\n\tdefer a.runtime.set.gmx.RUnlock()\n\tvars = a.runtime.set.globals", New: "\tvars = a.runtime.set.globals", Rule: "C11.guard"},
+			{Name: "dump releases the globals lock with a plain statement after printing (original defect)", File: "dump.go", Old: "\tdefer a.runtime.set.gmx.RUnlock()\n", New: "", More: []Edit{{File: "dump.go", Old: "\t\tfmt.Fprintf(&b, \"\\t%s:=%#v // %s\\n\", name, val, getTypeString(val))\n\t}\n", New: "\t\tfmt.Fprintf(&b, \"\\t%s:=%#v // %s\\n\", name, val, getTypeString(val))\n\t}\n\ta.runtime.set.gmx.RUnlock()\n"}}, Rule: "C11.guard"},
+			{Name: "InMemLoader.Open returns early with the read lock held (agent seed C11/12)", File: "loader.go", Old: "\tl.lock.RLock()\n\tdefer l.lock.RUnlock()\n\tf, ok := l.files[templatePath]", New: "\tl.lock.RLock()\n\tf, ok := l.files[templatePath]\n\tif ok {\n\t\tl.lock.RUnlock()\n\t}", Rule: "C11.guard"},
 			{Name: "globals read after the read lock was released", File: "eval.go", Old: "\tstate.set.gmx.RLock()\n\tv, ok := state.set.globals[name]\n\tstate.set.gmx.RUnlock()", New: "\tstate.set.gmx.RLock()\n\tstate.set.gmx.RUnlock()\n\tv, ok := state.set.globals[name]", Rule: "C11.guard"},
 			{Name: "AddGlobal writes under the read lock", File: "set.go", Old: "\ts.gmx.Lock()\n\tdefer s.gmx.Unlock()\n\ts.globals[key] = reflect.ValueOf(i)", New: "\ts.gmx.RLock()\n\tdefer s.gmx.RUnlock()\n\ts.globals[key] = reflect.ValueOf(i)", Rule: "C11.guard"},
 			{Name: "field cache published before it is filled", File: "eval.go", Old: "\t\t\t\tcache = make(map[string][]int)\n\t\t\t\tbuildCache(typ, cache, nil)\n\t\t\t\tcachedStructsFieldIndex[typ] = cache", New: "\t\t\t\tcache = make(map[string][]int)\n\t\t\t\tcachedStructsFieldIndex[typ] = cache\n\t\t\t\tbuildCache(typ, cache, nil)", Rule: "C11.guard"},
@@ -61,6 +63,7 @@ func runC11(c *an.Ctx) {
 	c.Note("guarded objects: %v", names)
 	c.Expect("C11.guard", "mutex-guarded maps", len(gs), 3)
 	c11guard(c, gs)
+	c11release(c)
 	c11publish(c)
 	c11globals(c, gs)
 	c11frozen(c)
